@@ -35,11 +35,13 @@ MC_BLOCK = mcc('MC_Block', 'MC_Block', invariants='Inv_C02_Step Inv_C03_Step Inv
 
 MC_WORDS = mcc('MC_Words', 'MC_Words', invariants='Inv_Greedy Inv_Width')
 
+MC_TABLE = mcc('MC_Block', 'MC_Table', invariants='Inv_C02_Step Inv_C03_Step Inv_C09_Balanced Inv_C01 Inv_Alloc Inv_P_C02 Inv_P_C03 Inv_P_C05 Inv_P_C06')
+
 # property -> plan
 PLANS = {
     'C02': dict(
         fams=[('c02', dict(quick=3000, thorough=60000), {})],
-        mc=[MC_WRAP, MC_BLOCK],
+        mc=[MC_WRAP, MC_BLOCK, MC_TABLE],
         nontrivial=nt_near_width,
         rule='seeded grammar documents (blocks, inline, lists, quotes, tables with colspans/nesting, pre, links, wide+combining chars) x option mixes without overflow/no_link_wrapping x widths 1..120; non-trivial = renders Ok with a line within 1 column of the width; distinct by sha256(html,width,cfg)',
         assumptions=['unicode-width 0.2 cell widths as measured by the harness; string-level width also checked per line',
@@ -109,9 +111,23 @@ PLANS = {
         rule='grammar documents with random nestings of em/i/strong/s/del/code/a/img/pre/span/sup inside paragraphs, lists, quotes, headings, table cells; widths 1..100 (half <= 25); rich lines route compared letter by letter with the annotation vector of the DOM ancestors, and with the rich string route; non-trivial = Ok with some cell carrying >= 2 annotations; distinct by sha256(runs)',
         assumptions=['for side-by-side tables the (letter, vector) pairs are compared as multisets', 'CSS colour annotations are covered by C19/C20'],
     ),
+    'C05': dict(
+        fams=[('c05', dict(quick=3000, thorough=60000), {})],
+        mc=[MC_TABLE],
+        nontrivial=lambda rec: bool(rec.get('runs')) and rec['runs'][0]['res']['k'] == 'ok' and any(c[0] in (9516, 9524, 9532) for ln in rec['runs'][0]['res']['lines'] for c in ln),
+        rule='MC: every regular table of the scope (<= 2 rows, 2-3 columns, all colspan tilings, cell classes empty/short/two-word/wide) at every width of the config, rendered step by step; random: regular tables 1..5 x 1..6 with tiling colspans, cells empty/short/long/multi-line/wide, nested regular tables, thead/tbody, widths 1..100, plain decorator; non-trivial = Ok with at least one junction glyph; distinct by sha256(runs)',
+        assumptions=['the output is read as a display-column grid using the harness cell widths', 'a table without any bar and with ragged lines is read as the stacked layout'],
+    ),
+    'C06': dict(
+        fams=[('c06', dict(quick=2500, thorough=50000), {})],
+        mc=[MC_TABLE],
+        nontrivial=lambda rec: bool(rec.get('runs')) and rec['runs'][0]['res']['k'] == 'ok' and any(c[0] == 9474 for ln in rec['runs'][0]['res']['lines'] for c in ln),
+        rule='as C05 without nesting; every non-empty cell is filled with copies of its own unique character, so that the strip (display columns) and the lines of every cell can be read off the output; MC additionally checks on every table of the scope that the column allocation fits the width, never starves a column that holds text, and that the shrink loop cannot get stuck (Inv_Alloc); non-trivial = Ok with at least one vertical bar; distinct by sha256(runs)',
+        assumptions=['separation (iii) is checked between horizontally adjacent non-empty cells'],
+    ),
     'C03': dict(
         fams=[('c03', dict(quick=3000, thorough=60000), {})],
-        mc=[MC_WRAP_MARKS, MC_BLOCK],
+        mc=[MC_WRAP_MARKS, MC_BLOCK, MC_TABLE],
         nontrivial=nt_ok_nonempty,
         rule='seeded grammar documents with unique letter tokens x decorators x option mixes x widths 1..200; non-trivial = renders Ok with at least one line; distinct by sha256(html,width,cfg)',
         assumptions=['generated hrefs/ids/src are letter-free so Letters() cannot mistake markup for text',
